@@ -362,6 +362,7 @@ var rewrites = []rewrite{
 	{"loop-helper-on-outer-loop-var", HoistOuterHelpers},
 	{"let-reads-the-name-it-binds", SplitSelfRef},
 	{"loop-list-reads-the-name-the-loop-binds", SplitLoopSelfRef},
+	{"ifempty-block-sees-the-loop-naming-scope", MoveIfEmptyOut},
 	{"let-visible-after-its-block", func(p *core.Program) (*core.Program, bool) { return AlphaRename(p), true }},
 }
 
